@@ -185,7 +185,11 @@ func (sd SpecDifferences) reportChanges(compat Compatibility) io.Reader {
 // ReportAllDiffs lists all the diffs between two specs
 func (sd SpecDifferences) ReportAllDiffs(fmtJSON bool) (io.Reader, error, error) {
 	if fmtJSON {
-		b, err := JSONMarshal(sd)
+		// the differences are collected while ranging over maps: print them in one order, as the text report does
+		sorted := make(SpecDifferences, len(sd))
+		copy(sorted, sd)
+		sort.SliceStable(sorted, func(i, j int) bool { return sorted[i].String() < sorted[j].String() })
+		b, err := JSONMarshal(sorted)
 		if err != nil {
 			return nil, fmt.Errorf("couldn't print results: %v", err), nil
 		}
